@@ -49,7 +49,7 @@ theorem removeDangling_emb : ∀ (fuel : Nat) (nn : NNet) (own : List Nat) (stac
               have hr : root < nn.net.nodes.size := ho root hown'
               have hio' : root ∉ nn.net.io := by simpa using hio
               have houts := outs_all_none (by simpa using hany : (nn.net.node root).outs.any (·.isSome) = false)
-              obtain ⟨w2, r2, e2, s2, _⟩ := removeRoot_emb nn w root hr hio' houts net1 h1
+              obtain ⟨w2, r2, e2, s2, _, _⟩ := removeRoot_emb nn w root hr hio' houts net1 h1
               have po := pinsOnly_removeLines _ _ _ _ h1
               have ho2 : ∀ x ∈ own.filterMap (fun x => mvNode nn.net.nodes.size root (some x)),
                   x < (delNode { nn with net := net1 } root).net.nodes.size := by
